@@ -160,6 +160,17 @@ class SubMeta(ht.MetadataNode):
         self.payload = ["user data"]
 
 
+class ResourceMeta(ht.MetadataNode):
+    """A user's metadata node that holds things which can be shared but not duplicated (a lock, a generator, a module)."""
+
+    def __init__(self):
+        import threading
+
+        self.lock = threading.Lock()
+        self.stream = (x for x in ())
+        self.module = threading
+
+
 class ReprMeta(ht.MetadataNode):
     """A metadata node that happens to be self-rendering (e.g. for notebooks): in a tag tree it is still only metadata."""
 
@@ -272,7 +283,7 @@ class FlakyTF(TF):
         return super().tagify()
 
 
-HARNESS_DOUBLES = (ReprObj, TF, TFObj, LazyMeta, SeqTF, DynObj)  # (StoredTF etc. are TF subclasses)
+HARNESS_DOUBLES = (ResourceMeta, ReprObj, TF, TFObj, LazyMeta, SeqTF, DynObj)  # (StoredTF etc. are TF subclasses)
 
 _SHARED = {}
 
@@ -372,6 +383,8 @@ def _build(r):
     if k == "meta":
         if r.get("repr"):
             return ReprMeta()
+        if r.get("resource"):
+            return ResourceMeta()
         if r.get("sub"):
             return SubMeta()
         return ht.MetadataNode()
